@@ -116,4 +116,24 @@ Section Run.
     assert (Hp : (pc <? 0) = false) by (apply Z.ltb_ge; lia). rewrite Hp. rewrite Hn.
     unfold counted. rewrite Eo. cbn [fst]. reflexivity.
   Qed.
+
+  Lemma leb_size : forall l : list value, zlen l < 999 -> (stack_size <=? zlen l) = false.
+  Proof. intros; apply Z.leb_gt; unfold stack_size; lia. Qed.
+
+  Ltac one_step Hpc Hn Htop :=
+    exists 1%nat; intros fuel; change (1 + fuel)%nat with (S fuel);
+    rewrite (exec_S fuel _ _ _ _ _ _ Hpc Hn Htop).
+
+  (* ---- pushes *)
+  Lemma step_push_int : forall pc live blocks h j z,
+    0 <= pc -> nth_error prog (Z.to_nat pc) = Some (I OpPushInt (OInt z)) -> zlen live < 999 ->
+    exists j', steps (M pc live blocks h j) (M (pc + 1) (VInt z :: live) blocks h j').
+  Proof.
+    intros pc live blocks h j z Hpc Hn Htop.
+    assert (Hne : zlen live <> stack_size) by (unfold stack_size; lia).
+    exists {| v_dead := tl (v_dead j); v_last := v_last j; v_details := v_details j; v_ops := v_ops (counted j) |}.
+    one_step Hpc Hn Hne.
+    cbn [step i_op i_arg M m_fr m_w]. unfold do_push, push. cbn [fr_top].
+    rewrite (leb_size live Htop). cbn. unfold M. rewrite zlen_cons. Show. reflexivity.
+  Qed.
 End Run.
